@@ -126,6 +126,7 @@ type checkResult struct {
 	known      []string
 	toolErrs   []string
 	bounded    []boundedResult
+	witnessCache map[string]map[string]interface{}
 }
 
 func classSelected(classes []string, c string) bool {
